@@ -24,10 +24,10 @@ func vRepeat(u string, k int) string {
 	return s
 }
 
-var vSqlUnits = [...]string{"''", "\\'", "$t$", "/*", "@", "`", "[", "a.", "a`", "--", "1,", "(", "1e", "x'", "q'(", "$$", "#", "\"\"", "a ", "1 ", ";", "{a ", "n'", "/*!", "1+", "or 1 ", "@@", "\\N", "u&'", "0x", "`a` ", "]'", "*/", "-", "<=>", "[aaaaaaaaaaaaaaaaaaaaaaaaaaaaaa,", "(aaaaaaaaaaaaaaaaaaaaaaaaaaaaaaaa,", "aaaaaaaaaaaaaaaaaaaaaaaaaaaaaaaa.", "'aaaaaaaaaaaaaaaaaaaaaaaaaaaaaaaa',"}
+var vSqlUnits = [...]string{"''", "\\'", "$t$", "/*", "@", "`", "[", "a.", "a`", "--", "1,", "(", "1e", "x'", "q'(", "$$", "#", "\"\"", "a ", "1 ", ";", "{a ", "n'", "/*!", "1+", "or 1 ", "@@", "\\N", "u&'", "0x", "`a` ", "]'", "*/", "-", "<=>", "[aaaaaaaaaaaaaaaaaaaaaaaaaaaaaa,", "(aaaaaaaaaaaaaaaaaaaaaaaaaaaaaaaa,", "aaaaaaaaaaaaaaaaaaaaaaaaaaaaaaaa.", "'aaaaaaaaaaaaaaaaaaaaaaaaaaaaaaaa',", "and.1", "or`1`", "select.", "1or.", "in.(", "@a.b"}
 var vXssUnits = [...]string{"<", "-", "%", "]", "&#", "/", "a=", "<!--x-->", "<%x%>", "</x>", "<x>", "<a b=c ", "' ", "\" ", "` ", "<!--", "<![CDATA[", "<?x>", "<!x>", "x=`", "--!", "]]", "%>", "<a href=&#x6a;", "<a/", "/ ", "<a b='c'", "\x00", "=\x00", "<!--[if", "<a style=", "&#x41", "<a href=java", "x", "&#120;", "x\x00", "<a href=\"xxxxxxxxxxxxxxxxxxxxxxxxxxxxxxxx\">"}
 
-const vNumSqlUnits = 39
+const vNumSqlUnits = 45
 const vNumXssUnits = 37
 
 // HRepeatSqli: pre + (unit with `holes` free bytes appended)^k and ^2k. Cost linear: doubling the length at most doubles
